@@ -1,6 +1,7 @@
 (** C09 - the free-page allocator obeys its specification (both backends).
     Property theorems only; each is closed by [exact] of a lemma of FreelistProofs.v. *)
-From Bbolt Require Import Base Freelist FreelistProofs.
+From Bbolt Require Import Base Freelist FreelistProofs FreelistAllocProofs FreelistHmProofs FreelistReleaseProofs.
+From Coq Require Import Sorting.Sorted.
 From Coq Require Import Sorting.Permutation.
 
 (** Freeing never makes a page directly reusable: the free list is untouched ... *)
@@ -37,3 +38,109 @@ Theorem C09_estimate_sufficient : forall s,
   16 + 8 * N.of_nat (length (snd (write_img s))) <= estimated_write_size s.
 Proof. exact estimate_sufficient. Qed.
 Print Assumptions C09_estimate_sufficient.
+
+(** * Allocation (array backend: array.go Allocate).  On a sorted free list of ids >= 2: *)
+
+(** Allocate(n) returns the first id of n consecutive pages that were all free and are free no longer ... *)
+Theorem C09_array_allocate_sound : forall txid n s p s',
+  sortedb (free s) = true -> Forall (fun x => 2 <= x) (free s) -> 0 < n ->
+  allocate_array txid n s = Ok (p, s') -> p <> 0 ->
+  2 <= p /\ (forall x, In x (run p n) -> In x (free s)) /\ free s' = remove_ids (run p n) (free s) /\
+  pending s' = pending s /\ readers s' = readers s /\ alookup p (allocs s') = Some txid.
+Proof. exact allocate_array_sound. Qed.
+Print Assumptions C09_array_allocate_sound.
+
+(** ... or reports none (0) only when no such run exists, changing nothing ... *)
+Theorem C09_array_allocate_complete : forall txid n s s',
+  sortedb (free s) = true -> Forall (fun x => 2 <= x) (free s) -> 0 < n ->
+  allocate_array txid n s = Ok (0, s') -> s' = s /\ ~ (exists q, forall x, In x (run q n) -> In x (free s)).
+Proof. exact allocate_array_complete. Qed.
+Print Assumptions C09_array_allocate_complete.
+
+(** ... it takes the lowest such run, and never panics or loops (pages 0 and 1 are never handed out: 2 <= p above) *)
+Theorem C09_array_allocate_lowest : forall txid n s p s',
+  sortedb (free s) = true -> Forall (fun x => 2 <= x) (free s) -> 0 < n ->
+  allocate_array txid n s = Ok (p, s') -> p <> 0 ->
+  forall q, (forall x, In x (run q n) -> In x (free s)) -> p <= q.
+Proof. exact allocate_array_lowest. Qed.
+Print Assumptions C09_array_allocate_lowest.
+
+Theorem C09_array_allocate_total : forall txid n s,
+  sortedb (free s) = true -> Forall (fun x => 2 <= x) (free s) ->
+  allocate_array txid n s <> Panic /\ allocate_array txid n s <> OutOfFuel.
+Proof. exact allocate_array_no_panic. Qed.
+Print Assumptions C09_array_allocate_total.
+
+(** * Allocation (hash-map backend: hashmap.go Allocate; [choice] = the span Go's map iteration picked - any admissible one) *)
+Theorem C09_hashmap_allocate_sound : forall txid n choice s p s',
+  sortedb (free s) = true -> allocate_hm txid n choice s = Some (p, s') -> p <> 0 ->
+  0 < n /\ (forall x, In x (run p n) -> In x (free s)) /\ free s' = remove_ids (run p n) (free s) /\
+  pending s' = pending s /\ readers s' = readers s /\ alookup p (allocs s') = Some txid.
+Proof. exact allocate_hm_sound. Qed.
+Print Assumptions C09_hashmap_allocate_sound.
+
+Theorem C09_hashmap_allocate_complete : forall txid n choice s s',
+  sortedb (free s) = true -> Forall (fun x => 1 <= x) (free s) -> 0 < n ->
+  allocate_hm txid n choice s = Some (0, s') -> s' = s /\ ~ (exists q, forall x, In x (run q n) -> In x (free s)).
+Proof. exact allocate_hm_complete. Qed.
+Print Assumptions C09_hashmap_allocate_complete.
+
+Theorem C09_hashmap_never_hands_out_meta_pages : forall txid n choice s p s',
+  sortedb (free s) = true -> Forall (fun x => 2 <= x) (free s) ->
+  allocate_hm txid n choice s = Some (p, s') -> p <> 0 -> 2 <= p.
+Proof. exact allocate_hm_ge2. Qed.
+Print Assumptions C09_hashmap_never_hands_out_meta_pages.
+
+(** the decision procedure evaluated on the IMPLEMENTATION's observations (oracle: alloc_ok) is sound for the declarative
+    statement, for both backends: whatever the real Allocate returned, if alloc_ok accepts it the statement holds of it *)
+Theorem C09_alloc_decision_sound_array : forall fb n ret fa, sortedb fb = true -> alloc_ok Array fb n ret fa = true ->
+  (ret = 0 -> fa = fb /\ (0 < n -> ~ exists q, forall x, In x (run q n) -> In x fb)) /\
+  (ret <> 0 -> 2 <= ret /\ 0 < n /\ (forall x, In x (run ret n) -> In x fb) /\ fa = remove_ids (run ret n) fb).
+Proof. exact alloc_ok_array_sound. Qed.
+Print Assumptions C09_alloc_decision_sound_array.
+
+Theorem C09_alloc_decision_sound_hashmap : forall fb n ret fa, sortedb fb = true -> alloc_ok Hashmap fb n ret fa = true ->
+  (ret = 0 -> fa = fb /\ (0 < n -> ~ exists q, forall x, In x (run q n) -> In x fb)) /\
+  (ret <> 0 -> 2 <= ret /\ 0 < n /\ (forall x, In x (run ret n) -> In x fb) /\ fa = remove_ids (run ret n) fb).
+Proof. exact alloc_ok_hm_sound. Qed.
+Print Assumptions C09_alloc_decision_sound_hashmap.
+
+(** * Release.  Reader r needs a pending page (freed by tid, allocated by a; a = 0: unknown) iff a <= r < tid. *)
+
+(** pending pages become free only when no registered reader's version can contain them - for every sorted reader list
+    (ids may repeat) and every pending map, with the repaired code (reader id 0 skipped) *)
+Theorem C09_release_safe : forall rs p p' freed,
+  Sorted N.le rs -> (forall r, In r rs -> r < MAXU64) ->
+  release_pending_gen true rs p = (p', freed) ->
+  forall tid pg a, In (tid, pg, a) (pend_pairs p) -> ~ In (tid, pg, a) (pend_pairs p') ->
+  forall r, In r rs -> needs r tid a = false.
+Proof. exact release_pending_gen_safe. Qed.
+Print Assumptions C09_release_safe.
+
+Theorem C09_released_pages_unneeded : forall rs p p' freed,
+  Sorted N.le rs -> (forall r, In r rs -> r < MAXU64) ->
+  release_pending_gen true rs p = (p', freed) ->
+  forall pg, In pg freed -> exists tid a, In (tid, pg, a) (pend_pairs p) /\ forall r, In r rs -> needs r tid a = false.
+Proof. exact release_pending_gen_safe_freed. Qed.
+Print Assumptions C09_released_pages_unneeded.
+
+(** nothing is lost or duplicated by a release *)
+Theorem C09_release_conserves : forall rs p p' freed,
+  release_pending_gen true rs p = (p', freed) -> Permutation (pending_ids p) (pending_ids p' ++ freed).
+Proof. exact release_pending_gen_conserves. Qed.
+Print Assumptions C09_release_conserves.
+
+(** all of them when there are no readers *)
+Theorem C09_release_all_without_readers : forall p p' freed,
+  (forall e, In e p -> fst e < MAXU64) -> release_pending_gen true [] p = (p', freed) -> p' = [].
+Proof. exact release_pending_gen_all_without_readers. Qed.
+Print Assumptions C09_release_all_without_readers.
+
+(** the pinned code (no guard for reader id 0, defect D10, repaired in /repo) violated the safety statement *)
+Theorem C09_pinned_release_unsafe : ~ (forall rs p p' freed,
+  Sorted N.le rs -> (forall r, In r rs -> r < MAXU64) ->
+  release_pending_gen false rs p = (p', freed) ->
+  forall tid pg a, In (tid, pg, a) (pend_pairs p) -> ~ In (tid, pg, a) (pend_pairs p') ->
+  forall r, In r rs -> needs r tid a = false).
+Proof. exact release_pending_gen_unguarded_unsafe. Qed.
+Print Assumptions C09_pinned_release_unsafe.
